@@ -359,6 +359,9 @@ NEGATIVE = [
 
 
 def selftest(v):
+    from .. import selftest as st
+    v.count("oracle_selftest_readme_snippets", st.test_parser_readme())
+    v.count("oracle_selftest_assertions", st.test_shapes() + st.test_zodeval() + st.test_resolver() + st.test_strace_parser() + st.test_exact_json())
     for s in POSITIVE:
         m = tsparse.parse_module(s)
         if m.errors:
